@@ -188,7 +188,14 @@ macro_rules! range_row {
                     }
                 }
                 if mode == 6 && n == check_prefix_at {
-                    let got: Vec<u128> = export(&enc).into_iter().map(|x| x as u128).collect();
+                    // the compressed form of the prefix, read either from a clone or through the documented
+                    // temporary view on the encoder itself (which then goes on encoding)
+                    let got: Vec<u128> = if kfrac % 2 == 1 {
+                        ctx.label("prefix_read_through_get_compressed_view");
+                        enc.get_compressed().iter().map(|&x| x as u128).collect()
+                    } else {
+                        export(&enc).into_iter().map(|x| x as u128).collect()
+                    };
                     let exp = refc.sealed(true).map_err(|_| vengine::Fail::new("harness/ref_range_carry_out", "seal"))?;
                     vcheck!(got == exp, "C06/range_stream_differs_from_reference", "after {} symbols: encoder {} reference {}", n, hexwords(&got), hexwords(&exp));
                 }
